@@ -202,7 +202,7 @@ def run_readonly(root, tag, compiler, seed, n_hist, n_req, oversize=False, damag
             for k in ('SCCACHE_DIR', 'SCCACHE_DIRECT', 'SCCACHE_CACHE_SIZE'): w.sc.env.pop(k, None)
             w.sc.env['XDG_CACHE_HOME'] = os.path.join(w.root, 'xdg'); w.sc.env['HOME'] = os.path.join(w.root, 'home'); os.makedirs(w.sc.env['HOME'], exist_ok=True)
             w.sc.cache = os.path.join(w.root, 'xdg', 'sccache')
-        elif conf == 'file':
+        elif conf in ('file', 'file_env_dir'):
             w.sc.env.pop('SCCACHE_DIRECT', None); w.sc.use_config({'use_preprocessor_cache_mode': direct})
         w.trace.append(f'--- configuration variant {conf}: cache directory {os.path.relpath(w.sc.cache, w.root)}')
         w.sc.start()
@@ -226,9 +226,11 @@ def run_readonly(root, tag, compiler, seed, n_hist, n_req, oversize=False, damag
             ro_env = {'SCCACHE_LOCAL_RW_MODE': 'READ_ONLY'}
             if oversize: ro_env['SCCACHE_CACHE_SIZE'] = '1K'
             if h % 3 == 2: ro_env['SCCACHE_RECACHE'] = '1'
-            if conf == 'file':
+            if conf in ('file', 'file_env_dir'):
                 # the config-file spelling of read-only mode
                 ro_env.pop('SCCACHE_LOCAL_RW_MODE')
+                # F-C15-b: the same cache directory named by SCCACHE_DIR as well (the environment section replaces the file's)
+                if conf == 'file_env_dir': ro_env['SCCACHE_DIR'] = w.sc.cache
                 cf = w.sc.env['SCCACHE_CONF']; t = open(cf).read().replace('size = 10737418240\n', 'size = 10737418240\nrw_mode = "READ_ONLY"\n'); open(cf, 'w').write(t)
                 if oversize: ro_env = {}
             w.sc.env.update(ro_env); w.sc.start(); w.trace.append(f'--- server restarted read-only ({conf}) {ro_env}')
@@ -248,7 +250,7 @@ def run_readonly(root, tag, compiler, seed, n_hist, n_req, oversize=False, damag
             after = listing(w.sc.cache)
             added = sorted(set(after) - set(before)); removed = sorted(set(before) - set(after)); changed = sorted(k for k in before if k in after and before[k] != after[k])
             if added or removed or changed:
-                fails.append({'kind': 'readonly_cache_modified' + ('_oversize' if oversize else ''), 'detail': f'added={added[:3]} removed={removed[:3]} changed={changed[:3]} (entries before {len(before)}, after {len(after)})', 'ops': list(w.trace)})
+                fails.append({'kind': 'readonly_cache_modified' + ('_oversize' if oversize else '') + ('_file_mode_with_env_dir' if conf == 'file_env_dir' else ''), 'detail': f'added={added[:3]} removed={removed[:3]} changed={changed[:3]} (entries before {len(before)}, after {len(after)})', 'ops': list(w.trace)})
             reqs += n_req; hits += w.hits - h0
             fails += [f for f in w.fails if f['kind'] != 'output_mode_masked_by_server_umask'][:2]
             if len(samples) < 2: samples.append(' ; '.join(w.trace[-5:]))
